@@ -1,15 +1,15 @@
 package checks
 
 import (
-	"github.com/transparency-dev/witness/internal/witness"
-	"time"
 	"bytes"
 	"context"
 	"fmt"
+	"github.com/transparency-dev/witness/internal/witness"
 	"io"
 	"net/http"
 	"strings"
 	"sync"
+	"time"
 
 	f_log "github.com/transparency-dev/formats/log"
 	"github.com/transparency-dev/merkle/proof"
@@ -57,6 +57,11 @@ type sumdbServer struct {
 	faultAt   int
 	faultKind string
 	nreq      int
+	// contentType, when set, labels every answer (a static mirror serving the
+	// extensionless tile files as text/plain); crlf counts served bodies that
+	// contain the byte pair CR LF.
+	contentType string
+	crlf        int
 }
 
 func (s *sumdbServer) ReadHashes(idx []int64) ([]tlog.Hash, error) {
@@ -72,7 +77,16 @@ func (s *sumdbServer) ReadHashes(idx []int64) ([]tlog.Hash, error) {
 
 func (s *sumdbServer) RoundTrip(r *http.Request) (*http.Response, error) {
 	mk := func(code int, body []byte) (*http.Response, error) {
-		return &http.Response{StatusCode: code, Status: fmt.Sprintf("%d", code), Body: io.NopCloser(bytes.NewReader(body)), Request: r, Header: http.Header{}}, nil
+		h := http.Header{}
+		if s.contentType != "" {
+			h.Set("Content-Type", s.contentType)
+			if code == 200 && bytes.Contains(body, []byte("\r\n")) {
+				s.mu.Lock()
+				s.crlf++
+				s.mu.Unlock()
+			}
+		}
+		return &http.Response{StatusCode: code, Status: fmt.Sprintf("%d", code), Body: io.NopCloser(bytes.NewReader(body)), Request: r, Header: h}, nil
 	}
 	p := r.URL.Path
 	s.mu.Lock()
@@ -342,14 +356,21 @@ func c18(tier string) int {
 	type pair struct {
 		from, to int
 		prefixed bool
+		// ctype: the server labels its answers with this Content-Type.
+		ctype string
 	}
 	var pairs []pair
 	for to := 2; to <= maxN; to++ {
 		for from := 1; from < to; from++ {
-			pairs = append(pairs, pair{from, to, false})
+			pairs = append(pairs, pair{from: from, to: to})
 			// ... and behind a base URL with a path component (all pairs up to 40, then the tile boundaries).
 			if to <= 40 || to%256 <= 1 || from%256 == 0 {
-				pairs = append(pairs, pair{from, to, true})
+				pairs = append(pairs, pair{from: from, to: to, prefixed: true})
+			}
+			// ... and from a server that labels everything text/plain (binary
+			// tiles must arrive byte-exact whatever the label).
+			if to%5 == 0 || to >= 256 && from%16 == 1 {
+				pairs = append(pairs, pair{from: from, to: to, ctype: "text/plain; charset=utf-8"})
 			}
 		}
 	}
@@ -358,12 +379,26 @@ func c18(tier string) int {
 	for _, to := range []int{65535, 65536, 65537, 65613, bigN} {
 		for _, from := range []int{1, 100, 128, 255, 256, 257, 300, 511, 512, 4096, 65535, 65536} {
 			if from < to {
-				pairs = append(pairs, pair{from, to, false}, pair{from, to, true})
+				pairs = append(pairs, pair{from: from, to: to}, pair{from: from, to: to, prefixed: true}, pair{from: from, to: to, ctype: "text/plain; charset=utf-8"}, pair{from: from, to: to, ctype: "text/html"})
 			}
 		}
 	}
+	// A complete level-0 tile whose bytes contain CR LF (about one in eight
+	// does): proofs that need it, served with a text label.
+	for k := int64(0); k < bigN/256; k++ {
+		data, err := tlog.ReadTileData(tlog.Tile{H: 8, L: 0, N: k, W: 256}, srvAll)
+		if err == nil && bytes.Contains(data, []byte("\r\n")) {
+			from, to := int(k)*256+3, int(k+1)*256+7
+			cpsGet(cps, u, origin, to)
+			for _, ct := range []string{"text/plain; charset=utf-8", "text/plain", "application/octet-stream", ""} {
+				pairs = append(pairs, pair{from: from, to: to, ctype: ct}, pair{from: 1, to: to, ctype: ct})
+			}
+			run.Set("crlf_tile", fmt.Sprintf("tile/8/0/%d", k))
+			break
+		}
+	}
 	var mu sync.Mutex
-	var cycles int64
+	var cycles, crlfServed int64
 	ch := make(chan pair, 1024)
 	var wg sync.WaitGroup
 	for w := 0; w < workers(); w++ {
@@ -378,17 +413,19 @@ func c18(tier string) int {
 				if p.prefixed {
 					srv.prefix, cl = feedPrefix, clP
 				}
+				srv.contentType = p.ctype
 				witCP := u.Sign(uni.Body(origin, uint64(p.from), u.Main.Root(p.from)), u.K1.Signer, u.W1.CosigSigner)
 				sw := &c18Witness{latest: witCP}
 				ctx, release := wh.NoRetryContext(context.Background())
 				err := sumdb.FeedLog(ctx, cl, sw, &http.Client{Transport: srv}, 0)
 				release()
-				rep := map[string]any{"kind": "sumdb-proof", "from": p.from, "to": p.to, "base_url_with_path": p.prefixed}
+				rep := map[string]any{"kind": "sumdb-proof", "from": p.from, "to": p.to, "base_url_with_path": p.prefixed, "content_type": p.ctype}
 				sig := func(k string) string {
 					return fmt.Sprintf("%s from-tile-boundary=%v to-tile-boundary=%v", k, p.from%256 == 0, p.to%256 == 0)
 				}
 				mu.Lock()
 				cycles++
+				crlfServed += int64(srv.crlf)
 				mu.Unlock()
 				if len(srv.bad) > 0 {
 					run.Report(sig("tile-request"), fmt.Sprintf("feeding %d -> %d: %s", p.from, p.to, srv.bad[0]), rep)
@@ -437,7 +474,7 @@ func c18(tier string) int {
 	// pairs that need complete tiles, every request position x four kinds of
 	// wrong answer; the retry loop's back-off timers fire at once, at most 4.
 	var transient int64
-	for _, p := range []pair{{300, 700, false}, {100, 600, false}, {255, 513, false}, {1, 300, false}} {
+	for _, p := range []pair{{from: 300, to: 700}, {from: 100, to: 600}, {from: 255, to: 513}, {from: 1, to: 300}} {
 		dry := &sumdbServer{hashes: srvAll.hashes, size: int64(p.to), latest: cpsGet(cps, u, origin, p.to)}
 		witCP := u.Sign(uni.Body(origin, uint64(p.from), u.Main.Root(p.from)), u.K1.Signer, u.W1.CosigSigner)
 		ctx0, rel0 := wh.NoRetryContext(context.Background())
@@ -488,6 +525,10 @@ func c18(tier string) int {
 		}
 	}
 	run.Set("cycles_with_one_wrong_answer", transient)
+	run.Set("text_labelled_answers_containing_crlf", crlfServed)
+	if crlfServed == 0 {
+		run.Vacuous("no tile served with a text/* label contained CR LF")
+	}
 	for _, p := range pairs {
 		if p.to-p.from == 1 || p.from == 1 {
 			run.Distinct(fmt.Sprintf("pair|%d|%d", p.from, p.to))
